@@ -5,6 +5,7 @@ package server
 import (
 	"bytes"
 	"fmt"
+	"math"
 	"strconv"
 	"strings"
 	"time"
@@ -94,6 +95,15 @@ func (s *Server) parseArea(ovs []string, doClip bool) (vs []string, o geojson.Ob
 		if b2, err = strconv.ParseFloat(sb2, 64); err != nil {
 			err = errInvalidArgument(sb2)
 			return
+		}
+
+		// NaN and Inf parse as floats, but the sector construction below
+		// never terminates on them.
+		for i, v := range []float64{lat, lon, meters, b1, b2} {
+			if math.IsNaN(v) || math.IsInf(v, 0) {
+				err = errInvalidArgument([]string{slat, slon, smeters, sb1, sb2}[i])
+				return
+			}
 		}
 
 		if b1 == b2 {
